@@ -9,7 +9,8 @@ Judge for `mirror_points` (C05, third clause).
   square is the sum of the squared coefficients (up to rounding), or the unchanged row when that norm is ≤ EPSILON;
 * correspondence: the model's loop, run in exact arithmetic on the dumped normalised polytope, returns in the same
   round with the same candidates (up to accumulated float rounding). A run in which a containment decision of the
-  model comes within 1e-9 of its threshold is `INEXACT` when the outcomes differ.
+  model comes within rounding distance of its threshold (1e-12 per round at the magnitude of the data) is `INEXACT` when
+  the outcomes differ.
 -/
 namespace AV.Judge
 
@@ -51,7 +52,10 @@ def judgeC05M : P Verdict := do
         return .diverge s!"normalize: row {showVec r.1} with squared norm {sq} was left unscaled"
   let model := mirrorLoop eps10 fac11 pn pts iters 0
   let margin := mirrorMargin pn pts iters 1
-  let tight := margin ≤ mkRat 1 1000000000
+  -- "at the threshold" = within what binary64 loses over the run: 1e-12 per round at the magnitude of the data (the
+  -- margin 1e-10 of the code itself is far outside of that: a candidate exactly on a face is *not* accepted)
+  let scale : Q := (pts.foldl (fun m x => x.foldl (fun a v => max a (absQ v)) m) (pn.bias.foldl (fun a v => max a (absQ v)) 1))
+  let tight := margin ≤ mkRat 1 1000000000000 * scale * ((iters : Nat) + 1 : Nat)
   match st with
   | "none" =>
     match model with
